@@ -35,8 +35,14 @@ func TryParseEnum[T constraints.EnumShooter[T]](str string, v *T) bool {
 // Useful for validating raw input before casting or using it as an enum.
 func IsEnum[T constraints.EnumShooter[T], TV constraints.Integer](value TV) bool {
 	var t T
+	x := T(value)
+	if TV(x) != value || (x < 0) != (value < 0) {
+		// value is not representable in T: the conversion wrapped around, so it is
+		// not a value of the enum type at all (IsEnum[int8-enum](259) is not 3)
+		return false
+	}
 	for _, v := range t.Values() {
-		if v == T(value) {
+		if v == x {
 			return true
 		}
 	}
